@@ -101,7 +101,7 @@ CHECKS = {
         'release is the greatest tag, no tag -> ValueError; clear(type) removes exactly that type, clear() everything; the file NAMES (<ID>/<id>.<release>.json, + .<random>.tmp) '
         'as strings: classification is a left inverse of both naming functions, so cache locations of different (type, release) never coincide and a temporary file is never a cache location; a tag re-published with other content: once the store (or that type) was cleared with no load in flight the invariant holds for the NEW remote, the next load fetches, stores and returns exactly the new bytes. Correspondence: all histories of '
         'length <= 2 over 13 operations x {absolute, relative} store + random ones, a kill before every boundary, all 2-loader interleavings with <= 2 '
-        'preemptions (thorough: all 12870) with the store snapshot after every boundary, faulty / 3-loader races, repeated loads of one release with alternating loader options each compared with the direct load, a tag re-published with other content after clear (evaluated directly) - the RAW directory listing is classified inside Coq and compared with the model at every '
+        'preemptions (thorough: all 12870) with the store snapshot after every boundary, faulty / 3-loader races, repeated loads of one release with alternating loader options each compared with the direct load, a tag re-published with other content after clear and a tag served with zero bytes (both evaluated directly) - the RAW directory listing is classified inside Coq and compared with the model at every '
         'checkpoint, resolve_store_path is compared with final_name. PARTIAL: power-loss durability and non-POSIX rename are outside the model.',
         'Trusted: Coq kernel + vm_compute; os.replace atomic, mkstemp random parts unique (that a temporary name is never a cache location is proved in Store/Paths.v); boundaries '
         'intercepted by harness-side replacement of module attributes; GitHub services not modelled. Two genuine defects fixed in /repo (fix: 344b425 atomic '
@@ -161,7 +161,7 @@ CHECKS = {
         'exactly what it yields alone, and one opened later is unaffected by what happened before; the parent / child iterators are the successor-free instance (drained = the row; each yields a prefix of its own row in any history). In the model isolation is structural, so the verdict rests '
         'on the property\'s own observable on the real code: results after query histories (incl. abandoned half-consumed iterators) equal fresh results; all '
         'interleavings (<= 60 per configuration, thorough <= 1680) of 2-3 open iterators yield the solo sequences, and their yields match the model in Coq '
-        '(no repeats, right multiset); 8 reader threads; documents / HPOA files A,B,A through the shared default factories; every ontology-level query (lookups of primary / alternate / obsolete / absent ids in three argument forms, membership, names, len, listings, version) on three fresh loads in fixed, reverse and shuffled order with open listing iterators; half-consumed traversals resumed after another query; one prefix-set object used for several loads and edited by the caller in between. PARTIAL: preemption inside a '
+        '(no repeats, right multiset); 8 reader threads; documents / HPOA files A,B,A through the shared default factories; every ontology-level query (lookups of primary / alternate / obsolete / absent ids in three argument forms, membership, names, len, listings, version) on three fresh loads in fixed, reverse and shuffled order with open listing iterators; half-consumed traversals resumed after another query; one prefix-set object used for several loads and edited by the caller in between; HPOA files with and without a version line through one loader, each load compared with that of a fresh loader. PARTIAL: preemption inside a '
         'generator step and true parallelism are explored, not proved.',
         'Trusted: Coq kernel + vm_compute; generator semantics modelled as explicit states; footprint digest is diagnostic only.',
         '§4 C12'),
